@@ -39,8 +39,10 @@ PATHS = ["func", "tpcall", "partial", "literal", "cpdef", "pymeth", "cmeth", "cu
 # functions that get the METH_O signature under always_allow_keywords=False (one argument besides self)
 METH_O_PATHS = ["func", "tpcall", "partial", "literal", "cpdef", "cmeth", "cunbound", "cpmeth"]
 
-QUICK = {"cfg": ["ArgBind_quick"], "bounds": (1, 1, 2), "fix": [-1]}
-THOROUGH = {"cfg": ["ArgBind_t0", "ArgBind_t1", "ArgBind_t2"], "bounds": (2, 2, 2), "fix": [0, 1, 2]}
+# exhaustive families (cfg files; `bounds` = MaxPO, MaxPK, MaxKO of the union of the signature sets) and the
+# budget for the sampled 6/6/6 family (spec SimSpec, TLC -simulate)
+QUICK = {"cfg": ["ArgBind_quick"], "bounds": (1, 1, 2), "sim_s": 0, "sim_sigs": 0}
+THOROUGH = {"cfg": ["ArgBind_t0", "ArgBind_t1", "ArgBind_t2", "ArgBind_k3"], "bounds": (2, 2, 2), "sim_s": 150, "sim_sigs": 120}
 
 
 def chunks(seq, n):
@@ -140,12 +142,13 @@ def run_cases(mode, mods, casesf, outdir, tag, aak_off=False, timeout=1500):
         ats = [r["at"] for r in recs if "at" in r]
         if (ch2.crashed or ch2.timed_out) and ats:
             culprit = ats[-1]
-            crashes.append({"i": culprit, "signal": ch2.signal, "timeout": bool(ch2.timed_out)})
+            crashes.append({"i": culprit, "signal": ch2.signal, "timeout": bool(ch2.timed_out),
+                            "path": [r for r in recs if "at" in r][-1].get("atpath", "?")})
             start = culprit + 1
         else:
             start = last_p + 2001   # not reproducible in the careful run
             crashes.append({"i": last_p, "signal": ch.signal, "timeout": bool(ch.timed_out), "unreproducible": True})
-        if len(crashes) > 20:
+        if len(crashes) >= 6:
             break
     mism, seen, stats, done = [], set(), {}, 0
     for r in recs:
@@ -209,6 +212,33 @@ def run(tier, seed):
     else:
         configs = list(CONFIGS)
 
+    cov = {"tlc": []}
+    # ---- sampled large family first (its signatures are only known afterwards and must be built)
+    sim_cases, sim_sigs = [], []
+    if plan["sim_s"]:
+        sim = core.tlc_simulate("ArgBind", "ArgBind_sim", seconds=plan["sim_s"], depth=9, workers=4, seed=seed, max_records=120000)
+        if not sim.ok:
+            sys.stderr.write(sim.out[-3000:])
+            core.die("ArgBind simulation: %s" % sim.violation)
+        seen = set()
+        for c in sim.printed:
+            k = json.dumps(c)
+            if k in seen:
+                continue
+            seen.add(k)
+            sg = L.sig_of_case(c)
+            if sg[0] <= plan["bounds"][0] and sg[1] <= plan["bounds"][1] and len(sg[4]) <= plan["bounds"][2]:
+                continue      # inside the exhaustive families
+            if sg not in sim_sigs:
+                if len(sim_sigs) >= plan["sim_sigs"]:
+                    continue
+                sim_sigs.append(sg)
+            sim_cases.append(c)
+        cov["simulation"] = {"records": len(sim.printed), "distinct_cases": len(sim_cases), "signatures": len(sim_sigs),
+                             "wall_s": round(sim.wall, 1), "cmd": sim.cmd,
+                             "max_params": max([sg[0] + sg[1] + len(sg[4]) for sg in sim_sigs] or [0])}
+        del sim, seen
+
     # ---- signatures of the bounded family (enumerated independently of TLC), builds start right away
     sigs = L.all_sigs(*plan["bounds"])
     if tier == "quick":
@@ -217,6 +247,8 @@ def run(tier, seed):
         call_sigs = sigs
     bld = Builder(wd, jobs)
     bld.add_sigs("b", sigs, call_sigs)
+    if sim_sigs:
+        bld.add_sigs("s", sim_sigs, sim_sigs[:60], per_mod=60, per_call_mod=30)
     built = {}
 
     def do_build():
@@ -225,7 +257,6 @@ def run(tier, seed):
     th.start()
 
     # ---- model checking
-    cov = {"tlc": []}
     casesf = os.path.join(wd, "cases.ndjson")
     ncases = 0
     classes = {}
@@ -239,6 +270,8 @@ def run(tier, seed):
             r = core.tlc_or_die("ArgBind", cfg=cfg, timeout=1500, workers=jobs)
             cov["tlc"].append(dict(r.summary(), config=cfg))
             for c in r.printed:
+                if cfg == "ArgBind_k3" and len(c[7]) < 3:
+                    continue      # already part of the t0..t2 families
                 cf.write(json.dumps(c, separators=(",", ":")) + "\n")
                 ncases += 1
                 classes[c[9]] = classes.get(c[9], 0) + 1
@@ -262,6 +295,13 @@ def run(tier, seed):
             if r.distinct != len(r.printed):
                 core.die("%s: %d distinct states but %d published cases" % (cfg, r.distinct, len(r.printed)))
             del r
+        nbfs = ncases
+        for c in sim_cases:
+            cf.write(json.dumps(c, separators=(",", ":")) + "\n")
+            ncases += 1
+            if c[6] or c[7]:
+                nontrivial += 1
+            classes["sim:" + c[9]] = classes.get("sim:" + c[9], 0) + 1
     phase = {"tlc": round(time.time() - t0, 1)}
     # vacuity guard (model only)
     need = ["bound", "nonstr", "toomany", "multiple", "unexpected", "missing", "bound+args", "bound+kw"]
@@ -318,7 +358,7 @@ def run(tier, seed):
             allc = core.read_ndjson(casesf)
             for cr in crashes:
                 case = allc[cr["i"]]
-                rep.disagree(describe(case, "?", c), "crash", {"config": c, "case": case, "crash": cr,
+                rep.disagree(describe(case, cr.get("path", "?"), c), "crash", {"config": c, "case": case, "crash": cr,
                                                                "sig": L.params(L.sig_of_case(case))[0]})
 
     phase["replay"] = round(time.time() - t0, 1)
@@ -344,7 +384,7 @@ def run(tier, seed):
         "traces_validated_against_impl": ncases * len(per_config),
         "evaluations": total_calls,
         "distinct_nontrivial": nontrivial,
-        "exhaustive": True,
+        "exhaustive": True, "cases_exhaustive_families": nbfs, "cases_simulated_family": len(sim_cases),
         "signatures": len(sigs), "signatures_with_tp_call_class": len(call_sigs),
         "cases": ncases, "case_classes": classes, "key_kinds": kinds_seen, "action_coverage": actions,
         "configs": per_config, "cpython_oracle_calls": sum(pstats.values()),
@@ -361,3 +401,36 @@ def run(tier, seed):
                                      "the tp_call classes cover a seeded sample of the signatures in the quick tier"],
                         violations=rep.n_violations())
     return rc
+
+
+def replay(path, seed):
+    """Re-run the cases of a replay file (written by Reporter) on freshly built modules."""
+    rec = json.load(open(path))
+    details = [d for d in rec.get("cases", []) if isinstance(d, dict) and "case" in d]
+    if not details:
+        core.die("no replayable cases in %s" % path)
+    cases = [d["case"] for d in details]
+    configs = sorted({d.get("config") for d in details if d.get("config") in CONFIGS}) or ["default"]
+    sigs = sorted({L.sig_of_case(c) for c in cases})
+    wd = core.subdir("c24r")
+    bld = Builder(wd, 8)
+    bld.add_sigs("r", sigs, sigs)
+    built = bld.build(configs)
+    for e in bld.errors:
+        print("build failed: %s %s\n%s" % (e["stage"], e["module"], e["errors"][-1500:]))
+    casesf = os.path.join(wd, "cases.ndjson")
+    core.write_ndjson(casesf, cases)
+    bad = 1 if bld.errors else 0
+    for c in configs:
+        if len(built[c]) != len(bld.modules):
+            continue
+        mism, stats, done, crashes = run_cases("ext", built[c], casesf, os.path.join(wd, "run"), c, aak_off=(c == "aak"))
+        for m in mism:
+            bad = 1
+            print("config=%s path=%s def f(%s)  positional=%d keywords=%r  expected %r  got %r" % (
+                c, m["path"], L.params(L.sig_of_case(m["case"]))[0], m["case"][6], m["case"][7], m["want"], m["got"]))
+        for cr in crashes:
+            bad = 1
+            print("config=%s crash %r in case %r" % (c, cr, cases[cr["i"]] if cr["i"] < len(cases) else None))
+    print("replay: %s" % ("disagreement reproduced" if bad else "all cases agree with the spec"))
+    return bad
